@@ -367,7 +367,21 @@ def check_regions(c, scr):
         okw = len(swaps) == 2 and all(s_[0] == w_[0] and set(s_[1]) == set(w_[1]) for s_, w_ in zip(swaps, wswap))
         c.check(okw, f, None, '%s normalises swapped corners (row pair and column pair separately)' % f.name, witness=str(swaps), kind='alg', tag='swaps:' + f.name)
         loops = [n for n in iter_nodes(f.node) if isinstance(n, ast.For)]
-        ok = len(loops) == 2 and norm(loops[0].iter) == 'range(%s, %s + 1)' % (p[0], p[2]) and norm(loops[1].iter) == 'range(%s, %s + 1)' % (p[1], p[3])
+        g_ = f.cfg
+
+        def iter_text(lp):
+            # the range may be built in a local first, provided its bounds are final by then (after the clamps and swaps)
+            it = lp.iter
+            if isinstance(it, ast.Name):
+                ds = [n for n in g_.nodes if n.kind == 'stmt' and isinstance(n.ast, ast.Assign) and it.id in assigned_names(n.ast)]
+                if len(ds) == 1:
+                    used = set(x.id for x in ast.walk(ds[0].ast.value) if isinstance(x, ast.Name))
+                    later = [n for n in g_.nodes if n.kind == 'stmt' and n is not ds[0] and (set(assigned_names(n.ast)) & used)
+                             and g_.path(ds[0], n, skip_labels=('exc',), include_start=False) is not None]
+                    if not later:
+                        return norm(ds[0].ast.value)
+            return norm(it)
+        ok = len(loops) == 2 and iter_text(loops[0]) == 'range(%s, %s + 1)' % (p[0], p[2]) and iter_text(loops[1]) == 'range(%s, %s + 1)' % (p[1], p[3])
         c.check(ok, f, loops[0] if loops else None, '%s visits rows rs..re and columns cs..ce inclusive' % f.name, witness=str([norm(l.iter) for l in loops]), kind='alg', tag='loops:' + f.name)
     def loopvars(f):
         ls = [n for n in iter_nodes(f.node) if isinstance(n, ast.For)]
